@@ -123,5 +123,16 @@ CHECKS['C09'] = dict(
     technique='interval domain on the loop bound + per-path probe-order traces + skeleton worlds with same-key value identity')
 for _p in []:
     NA[_p] = 'check not yet registered in this commit (design in DESIGN.md §4; being built)'
-NA['C17'] = 'calendar equality over 3.65 M dates is arithmetic over runtime values (float floor, data-dependent search loops): no clause is visible in the shape of the code'
+CHECKS['C17'] = dict(
+    text='Structural clauses of the tabular calendar decided on the abstract value of HijriDate::from(date) (helpers inlined, loops '
+         'abstracted): both day-number formulas agree with the reference formulas (polynomial normal forms over floor atoms; Friday epoch '
+         'R.D. 227015), the backward/forward year searches establish the half-open interval [1 Muharram y, 1 Muharram y+1) and the month '
+         'search the closed month end (guard + step of every loop), month lengths 30/29 with a 30-day twelfth month in leap years (truth '
+         'table over 12 month numbers x leap), euclidean 30-year leap rule (valid before the epoch), weekday = (day number mod 7)+1 in 1..=7, '
+         'before-Hijra mapping, number->enum tables vs declared discriminants, accessor/Display wiring incl. the B.H./A.H. suffix, '
+         'construction only by From<NaiveDate>, failure-site inventory of conversion and printing. Day-for-day equality on each of the '
+         '3,652,059 dates, the initial year estimate and integer-overflow checks are arithmetic over runtime values: not decided.',
+    note=ASSUME + '; dates of the common era (year() >= 1); all formula atoms are integers; atoms of a normal form are independent',
+    technique='abstract interpretation of the conversion + reference-formula comparison on polynomial normal forms, loop guard/step rules, '
+              'finite truth tables, panic-site inventory')
 NA['C20'] = 'metamorphic relation between numeric outputs through the whole ephemeris; the only structural fact behind it is not a necessary condition'
